@@ -21,8 +21,9 @@ pub fn what_if(
 ) -> Result<Vec<(String, String)>, String> {
     use std::io::Write;
     let cwd = std::env::current_dir().map_err(|e| e.to_string())?;
-    let dir = cwd.with_extension("whatif");
-    let out_file = cwd.with_extension("whatif.json");
+    let me = std::process::id();
+    let dir = cwd.with_extension(format!("whatif{me}"));
+    let out_file = cwd.with_extension(format!("whatif{me}.json"));
     let _ = std::fs::remove_dir_all(&dir);
     let _ = std::fs::remove_file(&out_file);
     copy_dir(&cwd, &dir).map_err(|e| format!("what_if copy: {e}"))?;
